@@ -23,6 +23,7 @@ class Program:
         self.tag = tag              # generator family (for evidence)
         self.idx = None
         self.func_style = 'function'    # callbacks: 'function' | 'expr' | 'block'
+        self.printer = None             # alternative expression printer (minimal parentheses)
         self.group = None               # grouped (gadget) binding: ('font', 'pointSize', [(sibling member, constant expr)...])
 
     def target(self):
@@ -38,7 +39,7 @@ class Program:
                     return f'{prop}: {L.pp(self.body)}{sib}'
                 return f'{prop}: {{\n' + '\n'.join(L.pps(self.body, ind)) + f'\n{ind[:-2]}}}{sib}'
             if self.form == 'expr':
-                return f'{prop}: {L.pp(self.body)}'
+                return f'{prop}: {(self.printer or L.pp)(self.body)}'
             return f'{prop}: {{\n' + '\n'.join(L.pps(self.body, ind)) + f'\n{ind[:-2]}}}'
         name = 'on' + self.signal[0].upper() + self.signal[1:]
         if self.func_style == 'expr':
